@@ -299,6 +299,19 @@ func samCorruptions(r *rand.Rand, fields []string) (kinds []string, lines []stri
 			add(fmt.Sprintf("integer field %d = %q", col+1, bad), f)
 		}
 	}
+	// malformed neighbours of a well-formed tag: a colon replaced, or the name
+	// shortened and the type lengthened
+	for _, good := range []string{"NM:i:2", "XZ:Z:abc", "XA:A:q", "XF:f:1.5", "XH:H:0aff"} {
+		for _, bad := range []string{good[:2] + "_" + good[3:], good[:2] + good[1:2] + good[3:], good[:4] + "_" + good[5:], good[:1] + ":" + good[3:4] + good[3:], good[:4] + good[5:]} {
+			if strings.Count(bad, ":") >= 2 && len(bad) > 4 && strings.ContainsAny(bad[strings.Index(bad, ":")+1:strings.Index(bad, ":")+2], "AifZHB") && bad[strings.Index(bad, ":")+2] == ':' {
+				continue // still well-formed
+			}
+			f := cp()
+			pos := 11 + r.IntN(len(f)-11+1)
+			f = append(f[:pos:pos], append([]string{bad}, fields[pos:]...)...)
+			add(fmt.Sprintf("tag %q (a damaged %q) inserted at field %d", bad, good, pos+1), f)
+		}
+	}
 	for _, bad := range []string{"XXi5", "XX:i5", "XX", ":", "", "XX:i:abc", "XX:i:", "XX:i:1.5", "XX:f:x", "XX:f:", "XX:f:1e", "XX:A:ab", "XX:A:", "XX:H:abc", "XX:H:zz", "XX:H:0", "XX:Q:1", "XX::1", "XX:ii:1"} {
 		f := cp()
 		pos := 11 + r.IntN(len(f)-11+1)
